@@ -213,6 +213,9 @@ def main():
     # decimal literals around the chunking / digit-limit boundaries of int() (value exact up to 4300 digits; beyond, value or diagnostic)
     for nd_ in (999, 1000, 1001, 3999, 4000, 4001, 4100, 4299, 4301, 7999, 8000, 8001, 12345):
         extra += ['1' + '0' * (nd_ - 1), '9' * nd_, ('1234567890' * (nd_ // 10 + 1))[:nd_], '1_' + '0' * (nd_ - 1)]
+    # long runs of blank lines, comment lines and blanks between two tokens (layout of any length changes nothing)
+    for gap in (500, 1200, 3000, 20000):
+        extra += ['a' + '\n' * gap + 'b', 'a' + '// c\n' * gap + 'b', 'a' + ' ' * gap + 'b', 'a' + ' \n\t\n' * gap + 'b;', 'x = 1;' + '\n// note\n\n' * gap + 'y = 2;']
     # lexing has no memory: every ordered pair (triple) of tokens from a universe that contains every symbol, keyword, flavour and
     # literal kind, with and without a separating blank, against the reference tokenizer
     from hidc.lexer import tokens as TK
